@@ -504,6 +504,17 @@ def standard_check(spec, tier, seed):
                    mismatches=len(mism), spec_violations=len(viol), exhaustive=False)
         if "post" in spec:
             spec["post"](res, all_lines, judged)
+        pre = spec.get("pre_obligations")
+        if pre:
+            # obligations of a second tie (model regenerated from the source by a translator)
+            proof["obligations"] = proof.get("obligations", 0) + pre["obligations"]
+            proof["discharged"] = proof.get("discharged", 0) + pre["discharged"]
+            proof["theorems"] = proof.get("theorems", []) + pre.get("theorems", [])
+            proof["checker_cmd"] = proof.get("checker_cmd", "") + " && " + pre.get("checker_cmd", "")
+            cov["translator"] = pre.get("info", {})
+            if pre.get("broken") and not res.violations:
+                res.violation("proof obligation over the model regenerated from the source no longer checks: %s" % pre["broken"],
+                              dict(kind="proof", theorem_or_file=pre["broken"], log=pre.get("log", "")[-3000:]), False)
         return res.finish(proof)
     finally:
         shutil.rmtree(tmpdir, ignore_errors=True)
